@@ -24,6 +24,8 @@ from typing import TYPE_CHECKING, List, Optional, Set, Tuple, Union, cast
 
 from .._cache import DNSCache, _UniqueRecordsType
 from .._dns import _RECENT_TIME_MS, DNSAddress, DNSPointer, DNSQuestion, DNSRecord, DNSRRSet
+from .._exceptions import NamePartTooLongException
+from .._logger import log
 from .._protocol.incoming import DNSIncoming
 from .._services.info import ServiceInfo
 from .._transport import _WrappedTransport
@@ -429,7 +431,12 @@ class QueryHandler:
             # When sending unicast, only send back the reply
             # via the same socket that it was recieved from
             # as we know its reachable from that socket
-            self.zc.async_send(out, addr, port, v6_flow_scope, transport)
+            try:
+                self.zc.async_send(out, addr, port, v6_flow_scope, transport)
+            except NamePartTooLongException:
+                # The questions of a legacy unicast query are echoed back; a name that was
+                # decoded with replacement characters may not be encodable again.
+                log.debug("Unable to send unicast reply to %s:%s: name part too long", addr, port)
         if question_answers.mcast_now:
             self.zc.async_send(construct_outgoing_multicast_answers(question_answers.mcast_now))
         if question_answers.mcast_aggregate:
